@@ -442,6 +442,8 @@ class LoopsMixin:
     def _inv_env(self, ex, p, kname, k, extra=None):
         """Environment for invariant evaluation: all visible locals (cells dereferenced) + ghost index."""
         env = {}
+        if p.frame.fi is not None and getattr(p.frame.fi, "qualname", None) == ex.unit:
+            env.update(getattr(ex, "unit_env", {}))          # parameters and `let` names of the unit's contract
         fr = p.frame
         chain = []
         while fr is not None:
